@@ -300,24 +300,25 @@ Proof.
     destruct (String.eqb (lookup (cf_id_from cf) (c_fields (t_claims t))) ""); reflexivity.
 Qed.
 
-(** Outside the two recorded findings the authenticator as it is creates a subject
-    exactly when the specification does, and it is the specification's subject. *)
+(** The authenticator as it is creates a subject exactly when the specification does,
+    and it is the specification's subject (outside the exotic C05-F3). *)
 Theorem authenticate_spec cf ks now cr :
-  sane_clock cf now -> guard_F1 cr = false -> guard_F2 cr = false ->
+  sane_clock cf now -> guard_F3 cr = false ->
   accepted_sub (authenticate cf ks now cr) = spec_accepts cf ks now cr.
+Proof.
+  intros Hs G. apply authenticate_gen_spec; [exact Hs|].
+  destruct cr as [| |t]; simpl in *; try exact I.
+  destruct (c_exp (t_claims t)) as [e|]; [|discriminate].
+  intro E. injection E as ->. rewrite Z.eqb_refl in G. discriminate.
+Qed.
+
+(** The authenticator as it was before a3a89b7 / f16c3cc did so outside C05-F1 and C05-F2. *)
+Theorem pinned_spec cf ks now cr :
+  sane_clock cf now -> guard_F1 cr = false -> guard_F2 cr = false ->
+  accepted_sub (authenticate_pinned cf ks now cr) = spec_accepts cf ks now cr.
 Proof.
   intros Hs G1 G2. apply authenticate_gen_spec; [exact Hs|].
   destruct cr as [| |t]; simpl; [exact I | exact I | split; assumption].
-Qed.
-
-(** With both repairs no guard is left (except the exotic exp = -62135596800). *)
-Theorem authenticate_fixed_spec cf ks now cr :
-  sane_clock cf now ->
-  (forall t, cr = CToken t -> c_exp (t_claims t) <> Some zero_time_unix) ->
-  accepted_sub (authenticate_gen true true cf ks now cr) = spec_accepts cf ks now cr.
-Proof.
-  intros Hs G. apply authenticate_gen_spec; [exact Hs|].
-  destruct cr as [| |t]; simpl; [exact I | exact I | apply G; reflexivity].
 Qed.
 
 (* ------------------------------------------------------------------ soundness in propositional form *)
@@ -452,24 +453,24 @@ Qed.
 
 (** "A subject is created only if ..." — the property's first sentence, for the code as it is *)
 Theorem accept_sound cf ks now t sub :
-  sane_clock cf now -> guard_F1 (CToken t) = false -> guard_F2 (CToken t) = false ->
+  sane_clock cf now -> guard_F3 (CToken t) = false ->
   authenticate cf ks now (CToken t) = Accepted sub ->
   demands cf ks now t sub.
 Proof.
-  intros Hs G1 G2 H.
-  pose proof (authenticate_spec cf ks now (CToken t) Hs G1 G2) as E. rewrite H in E. simpl in E.
+  intros Hs G H.
+  pose proof (authenticate_spec cf ks now (CToken t) Hs G) as E. rewrite H in E. simpl in E.
   symmetry in E. apply spec_accepts_demands in E. apply E.
 Qed.
 
 (** ... and conversely every token meeting the demands is accepted *)
 Theorem accept_complete cf ks now t sub :
-  sane_clock cf now -> guard_F1 (CToken t) = false -> guard_F2 (CToken t) = false ->
+  sane_clock cf now -> guard_F3 (CToken t) = false ->
   t_payload_obj t = true -> cf_remote cf = RUp ->
   demands cf ks now t sub ->
   authenticate cf ks now (CToken t) = Accepted sub.
 Proof.
-  intros Hs G1 G2 Hobj Hup D.
-  pose proof (authenticate_spec cf ks now (CToken t) Hs G1 G2) as E.
+  intros Hs G Hobj Hup D.
+  pose proof (authenticate_spec cf ks now (CToken t) Hs G) as E.
   rewrite (demands_spec_accepts _ _ _ _ _ Hobj Hup D) in E.
   destruct (authenticate cf ks now (CToken t)); simpl in E; congruence.
 Qed.
@@ -630,36 +631,41 @@ Close Scope string_scope.
 Lemma ex_sane : sane_clock ex_cf ex_now.
 Proof. unfold sane_clock. splits; vm_compute; congruence. Qed.
 
-(** C05-F1: a correctly signed token that expired in 1969 is accepted *)
-Theorem F1_refuted :
+(** C05-F1 as it was: a correctly signed token that expired in 1969 was accepted; a3a89b7 rejects it *)
+Theorem F1_pinned_refuted :
   exists cf ks now cr, sane_clock cf now /\ guard_F1 cr = true /\ guard_F2 cr = false /\
-    accepted_sub (authenticate cf ks now cr) = Some "alice"%string /\ spec_accepts cf ks now cr = None.
+    accepted_sub (authenticate_pinned cf ks now cr) = Some "alice"%string /\ spec_accepts cf ks now cr = None /\
+    authenticate cf ks now cr = Failed EAssertion.
 Proof.
   exists ex_cf, ex_keys, ex_now, (CToken (ex_token (Some (-1)%Z) None None)).
   split; [exact ex_sane|]. vm_compute. splits; reflexivity.
 Qed.
 
-(** C05-F2: a correctly signed token that becomes valid in the year 316 889 355 085 is accepted *)
-Theorem F2_refuted :
+(** C05-F2 as it was: a correctly signed token that becomes valid in the year 316 889 355 085 was
+    accepted; f16c3cc rejects it *)
+Theorem F2_pinned_refuted :
   exists cf ks now cr, sane_clock cf now /\ guard_F1 cr = false /\ guard_F2 cr = true /\
-    accepted_sub (authenticate cf ks now cr) = Some "alice"%string /\ spec_accepts cf ks now cr = None.
+    accepted_sub (authenticate_pinned cf ks now cr) = Some "alice"%string /\ spec_accepts cf ks now cr = None /\
+    authenticate cf ks now cr = Failed EAssertion.
 Proof.
   exists ex_cf, ex_keys, ex_now, (CToken (ex_token (Some 1790000600%Z) (Some 10000000000000000000%Z) None)).
   split; [exact ex_sane|]. vm_compute. splits; reflexivity.
 Qed.
 
-
-Example fixed_rejects_witnesses :
-  authenticate_gen true true ex_cf ex_keys ex_now (CToken (ex_token (Some (-1)%Z) None None)) = Failed EAssertion /\
-  authenticate_gen true true ex_cf ex_keys ex_now
-    (CToken (ex_token (Some 1790000600%Z) (Some 10000000000000000000%Z) None)) = Failed EAssertion.
-Proof. vm_compute. split; reflexivity. Qed.
+(** C05-F3 (open): a correctly signed token that expired on 1 January of the year 1 is accepted *)
+Theorem F3_refuted :
+  exists cf ks now cr, sane_clock cf now /\ guard_F3 cr = true /\
+    accepted_sub (authenticate cf ks now cr) = Some "alice"%string /\ spec_accepts cf ks now cr = None.
+Proof.
+  exists ex_cf, ex_keys, ex_now, (CToken (ex_token (Some (-62135596800)%Z) None None)).
+  split; [exact ex_sane|]. vm_compute. splits; reflexivity.
+Qed.
 
 (** non-vacuity: the hypotheses of [accept_sound] / [accept_complete] are met by an accepted token at the
-    edge of its validity (exp = now - leeway + 1, nbf = now + leeway) ... *)
+    edge of its validity (exp = now - leeway + 1, nbf = iat = now + leeway) ... *)
 Example nonvacuous :
   let t := ex_token (Some 1789999991%Z) (Some 1790000010%Z) (Some 1790000010%Z) in
-  sane_clock ex_cf ex_now /\ guard_F1 (CToken t) = false /\ guard_F2 (CToken t) = false /\
+  sane_clock ex_cf ex_now /\ guard_F3 (CToken t) = false /\
   authenticate ex_cf ex_keys ex_now (CToken t) = Accepted "alice" /\
   (* ... and one second further it is rejected *)
   authenticate ex_cf ex_keys ex_now (CToken (ex_token (Some 1789999990%Z) None None)) = Failed EAssertion /\
